@@ -334,4 +334,131 @@ theorem not_wbr_rsh_without_spare_zero_fill (nOut gap work : Nat) (zero : Val) (
       exact ih (0 :: W) (by simp [h1]) (hw.2 zero)
   exact key nOut [0] (by simp) h
 
+/-! ### the poulpy-ckks product path -/
+
+/-- a program placed on the rest of the scratch relies on the moved cells -/
+theorem WBR_shift (k : Nat) : ∀ (p : Prog Val α) (W : List Nat), WBR W p → WBR (W.map (· + k)) (p.shift k) := by
+  intro p
+  induction p with
+  | ret a => intro _ _; trivial
+  | read c f ih =>
+    intro W h
+    exact ⟨List.mem_map.mpr ⟨c, h.1, rfl⟩, fun v => ih v W (h.2 v)⟩
+  | write c v p ih =>
+    intro W h
+    simpa [Prog.shift, WBR] using ih (c :: W) h
+
+/-- a self-contained operation stays self-contained wherever it is placed, whatever was initialised before -/
+theorem WBR_shift_nil (k : Nat) (p : Prog Val α) (h : WBR [] p) (W : List Nat) : WBR W (p.shift k) :=
+  WBR_mono _ (fun _ hc => by cases hc) (WBR_shift k p [] h)
+
+theorem wbr_viaTmp {β : Type} (producer : Prog Val β) (pack : β → Val) (consumer : Val → Prog Val α)
+    (hp : WBR [] producer) (hc : ∀ t, WBR [] (consumer t)) : WBR [] (progViaTmp producer pack consumer) := by
+  unfold progViaTmp
+  refine WBR_bind _ _ [] (WBR_shift_nil 1 producer hp []) ?_
+  intro r W' _
+  simp only [WBR]
+  exact ⟨by simp, fun t => WBR_shift_nil 1 _ (hc t) _⟩
+
+/-- after `fillBufs … m` the continuation may rely on the cells `0 … m − 1` (and on what was initialised before) -/
+theorem WBR_fillBufs (K : Nat) (fill : Nat → Prog Val Val) (k : Prog Val α) (hf : ∀ i, WBR [] (fill i)) :
+    ∀ (m : Nat) (W : List Nat),
+      (∀ W', (∀ c, c ∈ W → c ∈ W') → (∀ j, j < m → j ∈ W') → WBR W' k) → WBR W (fillBufs K fill k m) := by
+  intro m
+  induction m with
+  | zero => intro W hk; exact hk W (fun _ h => h) (fun _ h => absurd h (Nat.not_lt_zero _))
+  | succ i ih =>
+    intro W hk
+    simp only [fillBufs]
+    refine WBR_bind _ _ W (WBR_shift_nil K _ (hf i) W) ?_
+    intro v W' hs
+    simp only [WBR]
+    refine ih (i :: W') ?_
+    intro W'' hs' hj
+    refine hk W'' (fun c hc => hs' c (List.mem_cons_of_mem _ (hs c hc))) ?_
+    intro j hj'
+    by_cases hji : j = i
+    · subst hji; exact hs' j List.mem_cons_self
+    · exact hj j (by omega)
+
+theorem WBR_accumulateTerms (K T cnt : Nat) (accum : Nat → Val → Val → Val → Prog Val Val) (k : Prog Val α)
+    (ha : ∀ i a b t, WBR [] (accum i a b t)) :
+    ∀ (j : Nat) (W : List Nat), j < cnt → (∀ c, c < 2 * cnt → c ∈ W) → T ∈ W →
+      (∀ W', (∀ c, c ∈ W → c ∈ W') → WBR W' k) → WBR W (accumulateTerms K T cnt accum k j) := by
+  intro j
+  induction j with
+  | zero => intro W _ _ _ hk; exact hk W (fun _ h => h)
+  | succ j ih =>
+    intro W hj hb hT hk
+    simp only [accumulateTerms, WBR]
+    refine ⟨hb _ (by omega), fun a => ⟨hb _ (by omega), fun b => ⟨hT, fun t => ?_⟩⟩⟩
+    refine WBR_bind _ _ W (WBR_shift_nil K _ (ha _ a b t) W) ?_
+    intro t' W' hs
+    simp only [WBR]
+    refine ih (T :: W') (by omega) (fun c hc => List.mem_cons_of_mem _ (hs c (hb c hc))) List.mem_cons_self ?_
+    intro W'' hs'
+    exact hk W'' (fun c hc => hs' c (List.mem_cons_of_mem _ (hs c hc)))
+
+theorem wbr_ckksDotProductCt (cnt : Nat) (hcnt : 0 < cnt) (rescale : Nat → Prog Val Val) (first : Val → Val → Prog Val Val)
+    (accum : Nat → Val → Val → Val → Prog Val Val) (relin : Val → Prog Val α)
+    (hr : ∀ i, WBR [] (rescale i)) (hf : ∀ a b, WBR [] (first a b)) (ha : ∀ i a b t, WBR [] (accum i a b t))
+    (hl : ∀ t, WBR [] (relin t)) : WBR [] (progCkksDotProductCt cnt rescale first accum relin) := by
+  unfold progCkksDotProductCt
+  refine WBR_fillBufs _ rescale _ hr (2 * cnt) [] ?_
+  intro W' _ hb
+  simp only [WBR]
+  refine ⟨hb 0 (by omega), fun a0 => ⟨hb cnt (by omega), fun b0 => ?_⟩⟩
+  refine WBR_bind _ _ W' (WBR_shift_nil _ _ (hf a0 b0) W') ?_
+  intro t W'' hs
+  simp only [WBR]
+  refine WBR_accumulateTerms _ _ cnt accum _ ha (cnt - 1) _ (by omega)
+    (fun c hc => List.mem_cons_of_mem _ (hs c (hb c hc))) List.mem_cons_self ?_
+  intro W3 hs3
+  simp only [WBR]
+  exact ⟨hs3 _ List.mem_cons_self, fun t' => WBR_shift_nil _ _ (hl t') _⟩
+
+theorem wbr_mulManyLevel (left right : Prog Val Val) (product : Val → Val → Prog Val α)
+    (hL : WBR [] left) (hR : WBR [] right) (hp : ∀ x y, WBR [] (product x y)) : WBR [] (progMulManyLevel left right product) := by
+  unfold progMulManyLevel
+  refine WBR_bind _ _ [] (WBR_shift_nil 2 left hL []) ?_
+  intro l W' _
+  simp only [WBR]
+  refine WBR_bind _ _ _ (WBR_shift_nil 2 right hR _) ?_
+  intro r W'' hs
+  simp only [WBR]
+  exact ⟨List.mem_cons_of_mem _ (hs 0 List.mem_cons_self), fun x => ⟨List.mem_cons_self, fun y => WBR_shift_nil 2 _ (hp x y) _⟩⟩
+
+/-- mapping the result of a program does not change what it reads -/
+theorem WBR_map {β : Type} (p : Prog Val α) (f : α → β) (W : List Nat) (h : WBR W p) : WBR W (p.bind (fun a => .ret (f a))) :=
+  WBR_bind p _ W h (fun _ _ _ => trivial)
+
+theorem wbr_productKernels (P : ProductKernels Val) : WBR [] P.prog :=
+  WBR_map _ _ [] (wbr_cnvProduct P.cols P.tmpA P.tmpB P.prepL P.prepR P.cnvTmp P.cnv P.normFirst P.normRest)
+
+theorem wbr_relinKernels (R : RelinKernels Val) (t : Val) : WBR [] (R.prog t) :=
+  wbr_keyswitch R.cols R.zero (R.aDft t) R.vmpTmp R.vmp R.addSmall R.normFirst R.normRest
+
+theorem wbr_shiftKernels (S : ShiftKernels Val) (x : Val) : WBR [] (S.prog x) :=
+  wbr_lsh S.nOut S.minSize S.zero (S.firstCO x) (S.midCO x) (S.step x) true (fun _ => rfl)
+
+theorem wbr_ckksMul (P : ProductKernels Val) (R : RelinKernels Val) : WBR [] (progCkksMul P R) :=
+  wbr_viaTmp _ _ _ (wbr_productKernels P) (wbr_relinKernels R)
+
+theorem wbr_ckksMulAddCt (P : ProductKernels Val) (R : RelinKernels Val) (packCt : List Val → Val) (S : ShiftKernels Val) :
+    WBR [] (progCkksMulAddCt P R packCt S) :=
+  wbr_viaTmp _ _ _ (wbr_ckksMul P R) (wbr_shiftKernels S)
+
+theorem wbr_ckksMulAddPt (P : ProductKernels Val) (S : ShiftKernels Val) : WBR [] (progCkksMulAddPt P S) :=
+  wbr_viaTmp _ _ _ (wbr_productKernels P) (wbr_shiftKernels S)
+
+theorem wbr_ckksDotProduct (cnt : Nat) (hcnt : 0 < cnt) (S : ShiftKernels Val) (input : Nat → Val) (packCt : List Val → Val)
+    (first : Val → Val → ProductKernels Val) (accum : Nat → Val → Val → Val → ProductKernels Val) (R : RelinKernels Val) :
+    WBR [] (progCkksDotProduct cnt S input packCt first accum R) :=
+  wbr_ckksDotProductCt cnt hcnt _ _ _ _ (fun i => WBR_map _ _ [] (wbr_shiftKernels S (input i)))
+    (fun a b => wbr_productKernels (first a b)) (fun i a b t => wbr_productKernels (accum i a b t)) (wbr_relinKernels R)
+
+theorem wbr_ckksMulMany4 (PL PR : ProductKernels Val) (RL RR : RelinKernels Val) (packCt : List Val → Val)
+    (P : Val → Val → ProductKernels Val) (R : RelinKernels Val) : WBR [] (progCkksMulMany4 PL PR RL RR packCt P R) :=
+  wbr_mulManyLevel _ _ _ (WBR_map _ _ [] (wbr_ckksMul PL RL)) (WBR_map _ _ [] (wbr_ckksMul PR RR)) (fun x y => wbr_ckksMul (P x y) R)
+
 end ScratchProg
